@@ -221,16 +221,31 @@ WAKE12 = [
 ]
 
 
-def wake_families(run, families, n, reader_relaxed=False, mode="th", oracle="lin", proj="search-wakeups"):
+def wake_families(run, families, n, reader_relaxed=False, mode="th", oracle="lin", proj="search-wakeups", dfs=None):
     """implementation-side search on 3-thread pools built to exercise wait()/notify(): random schedules with long runs of one
     thread, judged against the implementation's own sequential runs of every order"""
     rng = random.Random(run.seed + 7)
     for setup_t, calls_t in families:
         setup, calls = cf.parse_history(setup_t), parse_calls(calls_t)
         cache = {}
-        for k in range(n):
-            r = sched.run_schedule(Universe(), [dict(c) for c in setup], [dict(c) for c in calls], rng=random.Random(rng.random()), mode=mode,
-                                   sticky=rng.choice([0.0, 0.7, 0.9]))
+        # first a systematic walk over the orders of the synchronisation steps (sched.Dfs: complete when the budget allows,
+        # which it does for two-call pools and the metadata pools), then random schedules at single-operation granularity
+        budget = dfs if dfs is not None else (700 if (len(calls) == 2 or all(c["op"] in ("sm", "dm", "rm") for c in calls)) else (100 if run.tier == "quick" else 1500))
+        walker = sched.Dfs(seed=run.seed, budget=budget) if budget else None
+        k = 0
+        while True:
+            if walker is not None:
+                r = sched.run_schedule(Universe(), [dict(c) for c in setup], [dict(c) for c in calls], dfs=walker, mode=mode)
+                run.count("systematic_runs", calls_t)
+                if walker.done():
+                    run.extra.setdefault("systematic", {})[calls_t] = {"runs": walker.runs, "complete": walker.complete}
+                    walker = None
+            else:
+                if k >= n:
+                    break
+                k += 1
+                r = sched.run_schedule(Universe(), [dict(c) for c in setup], [dict(c) for c in calls], rng=random.Random(rng.random()), mode=mode,
+                                       sticky=rng.choice([0.0, 0.7, 0.9]))
             run.case(proj, (calls_t, tuple(r["schedule"])), nontrivial=True,
                      sample={"search": "3 threads, two contending on one identifier while a third releases another of the same class", "setup": setup_t, "calls": calls_t,
                              "schedule": ",".join(map(str, r["schedule"])), "outcomes": r["outcomes"]})
